@@ -157,6 +157,25 @@ def check(tier):
         if (r[0] == 0) != rd_ok:
             lang_bad.append((s, r, acc))
         n_acc += 1 if rd_ok else 0
+    # the verdict is a function of the token KINDS: the same sequence spelled as text, all on one line and one token per line, through the
+    # real scanner (positions differ, kinds do not) must get the verdict computed above
+    SPELL = {"grammar": "grammar", "IDENT": "ab", "TOKEN": "TK", "STRING": '"s"', "REGEX": "/r/", "PREDEF": "$ID"}
+    sample = [i for i in range(len(seqs)) if 4 <= len(seqs[i]) <= 14]
+    rng.shuffle(sample)
+    sample = sample[: (120 if tier == "quick" else 1500)]
+    # sequences where a TOKEN follows a directive's handles (one more handle, greedily - whatever line it is on)
+    extra = [["grammar", "IDENT", "@left", "TOKEN", "TOKEN", "=", "STRING"], ["grammar", "IDENT", ";", "@left", "TOKEN", "TOKEN", ";"],
+             ["grammar", "IDENT", "@none", "TOKEN", "STRING", "TOKEN", "=", "REGEX", ";"], ["grammar", "IDENT", "@right", "STRING", "TOKEN", "=", "STRING", ";"]]
+    layout_bad = []
+    for s_ in [seqs[i] for i in sample] + extra:
+        want = D.dictated_tree(s_, T)[0] == "ok"
+        words = [SPELL.get(k, k) for k in s_]
+        for sep in (" ", "\n", "\n\n  "):
+            rt = hook.call({"op": "parse_trace", "mode": "parse", "text": sep.join(words) + "\n"})
+            got = rt.get("error") is None and rt.get("outcome") == "ok"
+            if got != want:
+                layout_bad.append((s_, sep, got, want))
+                break
     # sentences that need a DEEP stack or are LONG (the property has no bound on either): valid by construction
     deep, deep_bad = [], []
     head = ["grammar", "IDENT", ";", "IDENT", "="]
@@ -234,6 +253,11 @@ def check(tier):
                    "cross-checked by Earley; %d sentences rejected because of greedy handles)" % (len(seqs), n_greedy), not lang_bad and not oracle_bad)
     for s in oracle_bad[:2]:
         rep.failure("oracle", {"oracle"}, {"tokens": s, "why": "the recursive-descent reading accepts a sequence that is not a sentence of the documented grammar"})
+    rep.obligation("the verdict depends on the token kinds only: %d sequences spelled as text on one line, one token per line and with blank lines "
+                   "get the same verdict" % (len(sample) + len(extra)), not layout_bad)
+    for s_, sep, got, want in layout_bad[:2]:
+        rep.failure("language", {"language-layout"}, {"tokens": s_, "input_text": sep.join(SPELL.get(k, k) for k in s_) + "\n", "accepted": got, "expected_accepted": want,
+                                                      "why": "the same token kinds get another verdict in this layout"})
     rep.obligation("disambiguation: ParseAndBuildAST builds the dictated tree on %d sentences" % n_tree, not tree_bad)
     rep.obligation("deep and long sentences are accepted (%d sentences, up to %d tokens)" % (len(deep), max(len(d_[1]) for d_ in deep)), not deep_bad)
     for what, s_, r_ in deep_bad[:2]:
